@@ -1237,6 +1237,42 @@ class ApplyInductHyp(Rule):
         return e
 
 
+def sample_parameters(es: List[Expr], var: str, conds: Conditions) -> Dict[str, Expr]:
+    """Choose a value for each variable other than var occurring in es, such that
+    the conditions mentioning only that variable hold. Used to test side
+    conditions of a substitution numerically when the integral has parameters.
+
+    """
+    res = dict()
+    params = set()
+    for e in es:
+        params |= e.get_vars()
+    params.discard(var)
+    for p in sorted(params):
+        for c in (Const(1), Const(2), Const(Fraction(1, 2)), Const(3), Const(-1)):
+            ok = True
+            for cond in conds.data:
+                if cond.get_vars() == {p} and cond.is_op() and len(cond.args) == 2:
+                    try:
+                        a, b = (expr.eval_expr(arg.subst(p, c)) for arg in cond.args)
+                        holds = {'>': a > b, '>=': a >= b, '<': a < b, '<=': a <= b, '=': a == b, '!=': a != b}.get(cond.op, True)
+                    except (ZeroDivisionError, ValueError, OverflowError, TypeError, NotImplementedError):
+                        holds = True
+                    if not holds:
+                        ok = False
+                        break
+            if ok:
+                res[p] = c
+                break
+    return res
+
+
+def subst_parameters(e: Expr, inst: Dict[str, Expr]) -> Expr:
+    for p, c in inst.items():
+        e = e.subst(p, c)
+    return e
+
+
 def is_monotonic_on(dfx: Expr, var: str, lower: Expr, upper: Expr) -> bool:
     """Return False if the derivative dfx (in variable var) takes both signs, or
     is undefined, at sample points strictly between lower and upper. Returns True
@@ -1379,8 +1415,12 @@ class Substitution(Rule):
             raise AssertionError("Substitution: variable not found")
 
         dfx = deriv(e.var, var_subst, ctx)
-        if e.is_integral() and not is_monotonic_on(dfx, e.var, e.lower, e.upper):
-            raise AssertionError("Substitution: %s is not monotonic on the interval of integration" % var_subst)
+        if e.is_integral():
+            # Parameters get sample values that satisfy the conditions
+            inst = sample_parameters([dfx, e.lower, e.upper], e.var, ctx.get_conds())
+            if not is_monotonic_on(subst_parameters(dfx, inst), e.var,
+                                   subst_parameters(e.lower, inst), subst_parameters(e.upper, inst)):
+                raise AssertionError("Substitution: %s is not monotonic on the interval of integration" % var_subst)
         ctx2 = Context(ctx)
         if e.is_integral():
             ctx2.add_condition(expr.Op(">", Var(e.var), e.lower))
@@ -1398,7 +1438,11 @@ class Substitution(Rule):
                 raise AssertionError("Substitution: unable to solve equation")
 
             gu = normalize(gu, ctx.get_conds())
-            if e.is_integral() and not is_inverse_on(gu, str(var_name), var_subst, e.var, e.lower, e.upper):
+            if e.is_integral():
+                inst = sample_parameters([gu, var_subst, e.lower, e.upper], e.var, ctx.get_conds())
+                inst.pop(str(var_name), None)
+            if e.is_integral() and not is_inverse_on(subst_parameters(gu, inst), str(var_name), subst_parameters(var_subst, inst), e.var,
+                                                     subst_parameters(e.lower, inst), subst_parameters(e.upper, inst)):
                 raise AssertionError("Substitution: %s is not the inverse of %s on the interval of integration" % (gu, var_subst))
             c = e.body.replace(parser.parse_expr(e.var), gu)
             new_problem_body = c * deriv(str(var_name), gu, ctx)
